@@ -160,11 +160,24 @@ def mergeInsts (cur base new : Insts) : Insts :=
   { results := (cur.results.filter (fun x => !removedR.contains x)) ++ addedR.filter (fun x => !cur.results.contains x),
     ptObjects := (cur.ptObjects.filter (fun x => !removedP.contains x)) ++ addedP.filter (fun x => !cur.ptObjects.contains x) }
 
+/-- why `RunContext.is_task_to_be_skipped` asks to skip a task (the order of the checks is the code's) -/
+inductive SkipReason | interrupted | backendFailure | abortedSession | abortedSuite | stopOnFailure
+deriving DecidableEq, Repr, Inhabited
+
+/-- `RunContext.is_task_to_be_skipped(task)` as a function of the facts it reads -/
+def skipReason (interrupted pendingFailure abortAll suiteAborted stopOnFailure anyFailure isTest : Bool) :
+    Option SkipReason :=
+  if interrupted then some .interrupted
+  else if pendingFailure then some .backendFailure
+  else if abortAll then some .abortedSession
+  else if isTest && suiteAborted then some .abortedSuite
+  else if stopOnFailure && anyFailure then some .stopOnFailure
+  else none
+
 /-- would the context ask to skip this task, judging by flag set `f`?  (`is_task_to_be_skipped`) -/
 def ctxWouldSkip (c : Ctx) (f : Flags) (t : TaskId) : Bool :=
-  f.interrupted || f.pending || f.abortAll ||
-  (t.kind == .test && f.abortedSuites.contains (some t.path.dropLast)) ||
-  (c.P.stopOnFailure && f.failed)
+  (skipReason f.interrupted f.pending f.abortAll (f.abortedSuites.contains (some t.path.dropLast))
+    c.P.stopOnFailure f.failed (t.kind == .test)).isSome
 
 def resOfClass : ResClass → Sched.Res
   | .success => .success | .failure => .failure | .skipped => .skipped | .exception => .exception
